@@ -22,7 +22,7 @@ P("C04", "other", True, KB,
   "Invariance of matrix inverses / eigen-solvers under relabelling is linear algebra over dependencies.",
   "P: cross kernel specs; B: bounded/c04.py relabelling check.")
 P("C05", "other", True, KB,
-  "Proved (C01 obligations REPINV/GUARD): every public mutator that writes the adjacency or the node weights rewrites N, n_links, link_density, graph resp. total/mean weight on the same path. Bounded: construction paths and save/load round trips compared field by field.",
+  "Proved: (INV) the adjacency setter leaves N, n_links (halved when undirected) and link_density (0 for N<=1) equal to the stated functions of the non-zero coordinates (py_mode VC on the real method body); (REPINV/GUARD) every public mutator that writes the adjacency or the node weights rewrites the derived fields and bumps the guard counter on the same path. Bounded: construction paths incl. explicitly stored zeros, mutate-then-save/load round trips, compared field by field.",
   "File-format fidelity of igraph is an assumed dependency contract.",
   "P: REPINV obligations of the Network family (shared with C01); B: bounded/c05.py.",
   extra="REPINV")
@@ -31,7 +31,7 @@ P("C06", "other", True, KB,
   "Alias/freshness facts of NumPy (view vs copy) are assumed per DESIGN.md 3.3.",
   "P: INPLACE obligations from the frame analyser; B: bounded/c06.py.", extra="INPLACE")
 P("C07", "other", True, KB,
-  "Proved (all inputs): the six distance kernels equal the metric fold per pair (rp variants symmetric with zero diagonal), the embedding kernels realise emb[k,j]=x[k+j*tau] within bounds, the adaptive-neighbourhood and bootstrap kernels are index safe. Bounded: every class/option against direct thresholding of float64 distances.",
+  "Proved (all inputs): the six distance kernels equal the metric fold per pair (rp variants symmetric with zero diagonal), the embedding kernels realise emb[k,j]=x[k+j*tau] within bounds, the adaptive-neighbourhood kernel only switches entries on and keeps symmetry, the bootstrap kernels are index safe; on the Python side (py_mode VCs with NumPy mask semantics) set_fixed_threshold of RecurrencePlot / CrossRecurrencePlot marks exactly the pairs with distance < threshold (never a missing-value state), the recurrence network's adjacency is R with exactly the diagonal cleared, and each distance method hands the embedding to its kernel with matching shapes. Bounded: every class/option against direct thresholding of float64 distances.",
   "Thresholding / rate logic lives in NumPy code checked by the bounded layer.",
   "P: DIST/EMBED kernel specs; B: bounded/c07.py.", notdec=["NaN arithmetic beyond the supremum-kernel facts"])
 P("C08", "proof", True, KB,
@@ -39,7 +39,7 @@ P("C08", "proof", True, KB,
   "The RQA scalar formulas (DET, L, ENTR, ...) are NumPy expressions checked by the bounded layer; floats as reals.",
   "P: RUNLEN/COUNT obligations of 9 wrappers; B: bounded/c08.py.", extra="C08TYPES")
 P("C09", "other", True, KB,
-  "Bounded: strict-mask semantics, monotonicity, symmetry inheritance, quantile/density bound and setter-chain consistency on the real code for all small similarity matrices. P: REPINV/GUARD obligations of set_threshold/set_link_density/set_non_local (shared with C01).",
+  "Proved: (MASK) _calculate_threshold_adjacency returns A[i,j]=1 exactly for i!=j and S[i,j]>threshold (strict; the flat stride N+1 clears exactly the diagonal) - py_mode VC with NumPy mask semantics on the real method body; (QUANTILE index) threshold_from_link_density indexes inside the sorted array for every density in [0,1] and at most density*L entries lie above the selected order statistic; REPINV/GUARD of set_threshold/set_link_density/set_non_local. Bounded: strict-mask semantics, monotonicity, symmetry inheritance, density bound and setter chains on the real code for all small similarity matrices.",
   "The thresholding itself is NumPy code; proved obligations cover the state consistency only.",
   "P: REPINV of ClimateNetwork setters; B: bounded/c09.py.", extra="REPINV")
 P("C10", "other", True, KB,
@@ -51,11 +51,11 @@ P("C11", "other", True, KB,
   "Python-level sub-block extraction is checked by the bounded layer.",
   "P: cross kernel specs; B: bounded/c11.py.")
 P("C12", "other", True, KB,
-  "Proved: both distance kernels write M[i,j]=M[j,i]=expr(i,j) for all j<=i (exact symmetry, full coverage), the cosine is clamped to [-1,1], the Euclidean self-distance is exactly sqrt(0). Bounded: closed-form distances, metric axioms, grids, weights.",
+  "Proved: both distance kernels write M[i,j]=M[j,i]=expr(i,j) for all j<=i (exact symmetry, full coverage), the cosine is clamped to [-1,1] (UF mode: exactly the stated float expression), the Euclidean self-distance is exactly sqrt(0); Grid.euclidean_distance / GeoGrid.angular_distance call their kernel exactly once with matching shapes (USES). Bounded: closed-form distances incl. grids far from the origin, metric axioms, grids, weights.",
   "The 2^-10 / 2^-20 error bounds need floating-point error analysis; bounded comparison only.",
   "P: kernel postconditions; B: bounded/c12.py.", notdec=["floating-point error bounds"])
 P("C13", "other", True, KB,
-  "Bounded: exhaustive windows on irregular grids, cycle lengths not dividing the series, window histories; P: GUARD obligations of set_window/set_global_window (shared with C01).",
+  "Proved: (WINDOW) the boolean masks computed by Data.set_window are exactly the closed-interval predicates of the statement (all-true when the bounds of an axis coincide; either spatial pair equal => all nodes) - py_mode VC with NumPy mask semantics on the real method body; GUARD of set_window/set_global_window. Bounded: exhaustive windows on irregular grids, cycle lengths not dividing the series, window histories.",
   "Window masks are NumPy expressions; decided by the bounded layer.",
   "P: GUARD(ClimateData.set_window); B: bounded/c13.py.", extra="GUARDWIN")
 P("C14", "proof", True, KB,
@@ -83,7 +83,7 @@ P("C19", "proof", True, KB,
   "Chunk arithmetic of the master loops and the submit/collect protocol are checked in the bounded layer (Python code).",
   "P: ROWLOCAL; B: bounded/c19.py.", notdec=["float re-association of partial sums"])
 P("C20", "proof", True, KB,
-  "Proved: (DIRECTIVES) setup.py keeps boundscheck/initializedcheck/nonecheck on and wraparound off and no .pyx overrides them, so typed-buffer accesses cannot leave their arrays; (RAW) every dereference in the six C functions lies inside the extent the Cython wrapper establishes, element widths of the pointer casts agree with the array dtypes, arrays handed over are C-contiguous; (UB-ARITH) index arithmetic fits int. Bounded: sanitizer-free poisoned-buffer sweep of the public API.",
+  "Proved: (DIRECTIVES) setup.py keeps boundscheck/initializedcheck/nonecheck on and wraparound off and no .pyx overrides them, so typed-buffer accesses cannot leave their arrays; (RAW) every dereference in the six C functions lies inside the extent the Cython wrapper establishes, element widths of the pointer casts agree with the array dtypes, arrays handed over are C-contiguous; (UB-ARITH) index arithmetic fits int; (USES) the Python entry points of the raw-pointer kernels establish the wrappers' preconditions (node index in [0,N), equal shapes of data/surrogates/mask, n_bins>=1) or raise. Bounded: poisoned-buffer sweep of the public API.",
   "alloca fits the stack; extents fit int (arrays < 2^31 elements) are explicit preconditions.",
   "P: RAW/WIDTH/CONTIG/DIRECTIVES; B: bounded/c20.py.", extra="DIRECTIVES")
 
